@@ -73,7 +73,8 @@ fn check_observers(b: &RollbackBuffer, model: &[u8], step: usize) -> Result<(), 
 }
 
 pub fn run_ops(case: &[Op], obs: &mut Obs) -> Result<(), Fail> {
-    let mut buf = RollbackBuffer::new();
+    // both constructors give the empty buffer: histories of odd length start from `Default`
+    let mut buf = if case.len() % 2 == 1 { RollbackBuffer::default() } else { RollbackBuffer::new() };
     let mut model: Vec<u8> = vec![];
     let mut hit_then_pop = 0u8; // 0 nothing, 1 saw a hit, 2 saw a pop after a hit
     let mut miss = false;
